@@ -839,12 +839,13 @@ Definition glb_check (g : glbinfo) (buffers : list N) : list string :=
 
 Record obs := { o_sum : summary; o_payload : option (list N); o_bin_len : N; o_glb : option glbinfo }.
 
-(* the whole property, alignment excepted (that is [aligned_ok], reported under its own key) *)
-Definition gltf_check (sc : scene) (o : obs) : list string :=
+(* the whole property, alignment excepted (that is [aligned_ok], reported under its own key).
+   [gltf_check_struct]: clauses about the document's own consistency (buffers, views, accessors, declared
+   bounds, extensions, node / light / scene bookkeeping, stored-once tables);
+   [gltf_check_models]: clauses that compare the document with the models of the scene, node by node. *)
+Definition gltf_check_struct (sc : scene) (o : obs) : list string :=
   let s := o_sum o in
-  let lives := filter live (sc_models sc) in
-  let nlive := length lives in
-  let pl := placements s sc in
+  let nlive := length (filter live (sc_models sc)) in
   key_if (Nat.leb (length (s_buffers s)) 1) "buffer-count"
   ++ key_if (match s_buffers s, o_glb o with
              | [], _ => o_bin_len o =? 0
@@ -855,22 +856,12 @@ Definition gltf_check (sc : scene) (o : obs) : list string :=
   ++ key_if (forallb (view_ok (s_buffers s)) (s_views s)) "view-out-of-buffer"
   ++ key_if (views_disjoint (s_views s)) "view-overlap"
   ++ key_if (forallb (acc_ok (s_views s)) (s_accs s)) "accessor-out-of-view"
-  ++ key_if (forallb (fun m => forallb (prim_ok s) (gm_prims m)) (s_meshes s)) "dangling-index"
-  ++ key_if (forallb (fun m => forallb (counts_agree s) (gm_prims m)) (s_meshes s)) "attribute-count-mismatch"
-  ++ key_if (match o_payload o with
-             | Some p => forallb (fun m => forallb (indices_in_range s p) (gm_prims m)) (s_meshes s)
-             | None => true end) "index-out-of-range"
   ++ key_if (match o_payload o with
              | Some p => forallb (fun a => match decode_acc (s_views s) p a with
                                            | Some es => minmax_ok a es | None => false end) (s_accs s)
              | None => true end) "minmax-mismatch"
   ++ key_if (ext_ok s) "extension-undeclared"
   ++ key_if (Nat.eqb (length (s_nodes s)) (nlive + length (sc_lights sc))) "node-count"
-  ++ key_if (forallb (fun nd => valid_opt (gn_mesh nd) (s_meshes s) && valid_opt (gn_light nd) (s_lights s)
-                                && match gn_inst nd with
-                                   | Some a => forallb (fun kv => valid_idx (snd kv) (s_accs s)) a
-                                   | None => true end) (s_nodes s)) "dangling-index"
-  ++ flat_map (fun mn => model_node_check s (o_payload o) (fst mn) (snd mn)) (zip lives (s_nodes s))
   ++ flat_map (fun jl => light_node_check s (N.of_nat (fst (fst jl))) (snd (fst jl)) (snd jl))
        (zip (zip (seq 0 (length (sc_lights sc))) (sc_lights sc)) (skipn nlive (s_nodes s)))
   ++ key_if (list_eqb glight_eqb (s_lights s) (map light_out (sc_lights sc))) "light-content"
@@ -879,13 +870,30 @@ Definition gltf_check (sc : scene) (o : obs) : list string :=
              | [roots] => (s_scene s =? 0) && Nat.eqb (length roots) (length (s_nodes s))
                           && covers (len (s_nodes s)) roots && forallb (fun r => valid_idx r (s_nodes s)) roots
              | _ => false end) "scene-roots"
+  ++ key_if (nodup_str (s_images s) && nodup_by samp_eqb (s_samplers s) && nodup_by gtex_eqb (s_texs s)) "duplicate-entry"
+  ++ key_if (forallb (fun t => valid_opt (gt_source t) (s_images s) && valid_opt (gt_sampler t) (s_samplers s)) (s_texs s)) "dangling-index".
+
+Definition gltf_check_models (sc : scene) (o : obs) : list string :=
+  let s := o_sum o in
+  let lives := filter live (sc_models sc) in
+  let pl := placements s sc in
+  key_if (forallb (fun m => forallb (prim_ok s) (gm_prims m)) (s_meshes s)) "dangling-index"
+  ++ key_if (forallb (fun m => forallb (counts_agree s) (gm_prims m)) (s_meshes s)) "attribute-count-mismatch"
+  ++ key_if (match o_payload o with
+             | Some p => forallb (fun m => forallb (indices_in_range s p) (gm_prims m)) (s_meshes s)
+             | None => true end) "index-out-of-range"
+  ++ key_if (forallb (fun nd => valid_opt (gn_mesh nd) (s_meshes s) && valid_opt (gn_light nd) (s_lights s)
+                                && match gn_inst nd with
+                                   | Some a => forallb (fun kv => valid_idx (snd kv) (s_accs s)) a
+                                   | None => true end) (s_nodes s)) "dangling-index"
+  ++ flat_map (fun mn => model_node_check s (o_payload o) (fst mn) (snd mn)) (zip lives (s_nodes s))
   ++ key_if (pairs_ok dedup_pair_ok pl) "dedup-inconsistent"
   ++ key_if (functional (all_tex_refs s pl)) "texture-pointer-stored-twice"
-  ++ key_if (nodup_str (s_images s) && nodup_by samp_eqb (s_samplers s) && nodup_by gtex_eqb (s_texs s)) "duplicate-entry"
-  ++ key_if (forallb (fun t => valid_opt (gt_source t) (s_images s) && valid_opt (gt_sampler t) (s_samplers s)) (s_texs s)
-             && forallb (fun m => forallb (fun sl => valid_idx (ti_index (fst (snd sl))) (s_texs s)) (gmt_texs m)) (s_mats s)) "dangling-index"
+  ++ key_if (forallb (fun m => forallb (fun sl => valid_idx (ti_index (fst (snd sl))) (s_texs s)) (gmt_texs m)) (s_mats s)) "dangling-index"
   ++ key_if (nothing_extra s) "unreferenced-entry"
   ++ match o_glb o with Some g => glb_check g (s_buffers s) | None => [] end.
+
+Definition gltf_check (sc : scene) (o : obs) : list string := gltf_check_struct sc o ++ gltf_check_models sc o.
 
 Definition gltf_validb (sc : scene) (o : obs) : bool := match gltf_check sc o with [] => true | _ => false end.
 
